@@ -269,6 +269,16 @@ func Payload(t *rapid.T, l spec.Layout, som byte, serial uint32, nBad int, noise
 			break
 		}
 	}
+	// a 32-bit field that holds the controller's own serial number (a card number, an index: numbers drawn independently never
+	// coincide with it)
+	if rapid.IntRange(0, 7).Draw(t, "field.equals.serial") == 0 {
+		for i, f := range l.Fields {
+			if f.Kind == spec.U32 && !badSet[i] && rapid.Bool().Draw(t, "which.field") {
+				spec.PutLE32(b[f.Off:], serial)
+				break
+			}
+		}
+	}
 	// one clock, several notations: a layout that carries a full date-time next to a two-digit-year system date and a system time
 	// (the status record) now and then shows the SAME moment in both - to the second, also with the date-time's century one off
 	var dt, sd, st *spec.Field
